@@ -3,6 +3,7 @@
 parts_of() {
   case "$1" in
     C09|C16) echo "sched:cmd/keymasterd:$1" ;;
+    C14) echo "seq:cmd/keymasterd:C14 sched:cmd/keymasterd:C14S" ;;
     C16RACE) echo "seq:cmd/keymasterd:C16RACE" ;;
     C19) echo "seq:cmd/keymaster:C19" ;;
     C20) echo "seq:cmd/keymasterd:C20 seq:eventmon/eventrecorder:C20R seq:eventmon/monitord:C20M" ;;
